@@ -40,7 +40,10 @@ func (h H) truncationOnlyAtConflict(rule string) {
 			// all of the log is covered by the snapshot, or it conflicts with it
 			// at the snapshot index (the install handler's discard decision, F27)
 			return a.Implies(core.MkAtom("(*log.Log).LastIndex("+st+".log)", "<", arg)) ||
-				a.Implies(core.MkAtom("(*storage).getEntryTerm("+st+", "+arg+")#0", "!=", st+".snaps.term"))
+				a.Implies(core.MkAtom("(*storage).getEntryTerm("+st+", "+arg+")#0", "!=", st+".snaps.term")) ||
+				// …or it starts after the snapshot: what a process killed inside
+				// Log.Reset (segments are deleted first to last) leaves behind (F29)
+				a.Implies(core.MkAtom("(*log.Log).PrevIndex("+st+".log)", ">", arg))
 		})
 		h.C.Check(rule+" open-reset-only-if-covered", site, r.OK, h.pos(c.(ssa.Instruction)), "on open the log is reset although it may hold entries beyond the latest snapshot: "+r.Witness)
 	}
